@@ -84,6 +84,13 @@ def run_shard(ctx, shard):
             if rng.random() < 0.15:
                 rows.append('')   # an empty line right after the header
             for k in range(rng.randint(0, 4)):
+                if rng.random() < 0.12:
+                    # an entry laid out over several lines (name, `=` and the opening brace not all on one line): whatever
+                    # the grammar makes of it, it must make the same of it under either line-ending convention
+                    n_, d_ = rng.choice(NAMES), rng.choice(DECLS)
+                    rows += rng.choice([[n_ + ' =', '{' + d_ + '}'], [n_ + ' =', '{', '  ' + d_, '}'], [n_, '= {' + d_ + '}'], [n_ + ' = {', d_, '}'],
+                                        [n_ + ' =  ', '  {' + d_ + '}']])
+                    continue
                 rows.append(rng.choice(NAMES) + rng.choice([' = ', '=', ' =  ']) + '{' + rng.choice(DECLS) + '}')
                 if rng.random() < 0.2:
                     rows.append('')   # an empty line between entries: blanks on it must not matter either
